@@ -90,6 +90,25 @@ impl Small {
         }
         h
     }
+    /// The same matrix built through a redundant editing history: columns filled bottom-up,
+    /// then every entry inserted again through insert_row, then every entry toggled twice.
+    /// (A matrix is a set of positions; how it was built must not matter to anyone.)
+    pub fn sparse_redundant(&self) -> SparseMatrix {
+        let mut h = SparseMatrix::new(self.r, self.n);
+        for j in 0..self.n {
+            let rows: Vec<usize> = (0..self.r).rev().filter(|&i| self.get(i, j)).collect();
+            h.insert_col(j, rows.iter());
+        }
+        for i in 0..self.r {
+            let cols: Vec<usize> = (0..self.n).filter(|&j| self.get(i, j)).collect();
+            h.insert_row(i, cols.iter());
+        }
+        for (i, j) in self.entries() {
+            h.toggle(i, j);
+            h.toggle(i, j);
+        }
+        h
+    }
     pub fn syndrome_ok(&self, word: u64) -> bool {
         self.rows.iter().all(|r| (r & word).count_ones() % 2 == 0)
     }
